@@ -92,6 +92,27 @@ class StopBeforeSize(Walker):
         return Walker.on_write(self, lv, st, node)
 
 
+_WIDTH = {"bool": 32, "char": 32, "signed char": 32, "unsigned char": 32, "short": 32, "unsigned short": 32,
+          "int": 32, "unsigned int": 32, "long": 64, "unsigned long": 64, "long long": 64, "unsigned long long": 64}
+
+
+def _shift_verdict(fn, n, bounded):
+    """(ok, reason) for one built-in shift expression"""
+    from ..sir import const_value, has_const as is_const
+    lt = fn.type(strip(n["lhs"]).get("t", n.get("t"))).replace("const ", "").replace("&", "").strip()
+    width = _WIDTH.get(lt)
+    r = strip(n["rhs"])
+    if isinstance(r, dict) and is_const(r):
+        v = const_value(r)
+        if width is None:
+            return True, "constant amount %r (operand type %s)" % (v, lt)
+        return (isinstance(v, int) and 0 <= v < width), "constant amount %r, operand width %d" % (v, width)
+    refs = [x.get("d") for x in walk(r) if isinstance(x, dict) and x.get("k") == "ref"]
+    if refs and all(d in bounded for d in refs):
+        return True, "amount compared against a bound in the function"
+    return False, "unbounded amount"
+
+
 def run(db, chk):
     chk.explanation = (
         "Static rules over the instantiated AST of every grid type: (B1) guard-order analysis "
@@ -195,6 +216,46 @@ def run(db, chk):
     chk.absorb(db, "C13", {"C13-L4"}, "C08-B10", "no setter overload of the SPL eroder leaves a stride / size "
                "descriptor of the coefficient array stale (shared with C13-L4): erode() would index the new array "
                "with the old layout", min_instances=2)
+    # ---- B11: shift amounts stay below the width of the shifted operand -----------------------------
+    if chk.want("C08-B11"):
+        chk.rule("C08-B11", "no shift by an amount that can reach the width of the shifted operand (undefined "
+                 "behaviour): every built-in << / >> has a constant amount below the width of its promoted left "
+                 "operand, or an amount the function itself compares against a bound (today the library has no "
+                 "built-in shift: the rule is kept alive by a synthetic positive control evaluated on every run)",
+                 min_instances=1)
+        import types as _types
+        ctl_fn = _types.SimpleNamespace(type=lambda t: {1: "unsigned long", 2: "int"}.get(t, "?"))
+        ctl_bad = {"k": "binop", "op": "<<", "lhs": {"k": "lit", "cv": 1, "t": 1}, "rhs": {"k": "ref", "rk": "param", "d": 7, "n": "i", "t": 1}}
+        ctl_good = {"k": "binop", "op": "<<", "lhs": {"k": "lit", "cv": 1, "t": 1}, "rhs": {"k": "lit", "cv": 5, "t": 2}}
+        if _shift_verdict(ctl_fn, ctl_bad, set())[0] or not _shift_verdict(ctl_fn, ctl_good, set())[0]:
+            raise AnalysisBroken("C08-B11: the positive control of the shift rule no longer behaves")
+        chk.ob("C08-B11", "positive control: `1ul << i` (unbounded i) is reported, `1ul << 5` is not", True,
+               where="(synthetic)", function="-", construct="shift-control")
+        seen_loc = set()
+        for fn in db.all_fns():
+            if fn.body is None:
+                continue
+            shifts = [n for n in walk(fn.body) if n.get("k") == "binop" and n.get("op") in ("<<", ">>", "<<=", ">>=")]
+            if not shifts:
+                continue
+            bounded = set()
+            for n in walk(fn.body):
+                if n.get("k") == "binop" and n.get("op") in ("<", "<=", ">", ">=", "%", "&"):
+                    for side in (n.get("lhs"), n.get("rhs")):
+                        r = strip(side) if side is not None else None
+                        if isinstance(r, dict) and r.get("k") == "ref":
+                            bounded.add(r.get("d"))
+            for n in shifts:
+                key = (fn.ploc, fn.loc(n))
+                if key in seen_loc:
+                    continue
+                seen_loc.add(key)
+                ok, why = _shift_verdict(fn, n, bounded)
+                chk.ob("C08-B11", "%s at %s: %s" % (pp(n)[:60], fn.loc(n), why), ok, where=fn.loc(n), function=fn.bn,
+                       construct="shift(%s)" % pp(strip(n["rhs"]))[:30],
+                       detail="" if ok else "the amount is neither a constant below the operand's width nor compared "
+                       "against a bound anywhere in the function: for an amount >= the width the shift is undefined "
+                       "(in practice it wraps, aliasing two positions)")
     # ---- B3
     resize_safe = {}
     for fn in db.fns(POOL + "::resize"):
